@@ -4,6 +4,7 @@ CONSTANTS
   Indexes <- IndexNames
   Aliases <- AliasNames
   Exprs <- ExprsAll
+  DelExprs <- DelExprsAll
   TermsOf <- Terms
   Matches <- Match
   IsWild <- Wild
